@@ -278,8 +278,10 @@ impl DepthFirstSearch {
             // any speculative changes if this candidate doesn't lead to a proof.
             facts.begin_undo_frame();
 
-            // Get the rule from KB
-            if let Some(rule) = kb.get_rule(&rule_name) {
+            // Get the rule from KB. A disabled rule never fires: the forward engine skips it and
+            // the conclusion index does not propose it, but the substring heuristics (sub-goals,
+            // linear fallback) and a stale index can still name it.
+            if let Some(rule) = kb.get_rule(&rule_name).filter(|r| r.enabled) {
                 // Try to execute rule (checks conditions AND executes actions)
                 match self.executor.try_execute_rule(&rule, facts) {
                     Ok(true) if self.check_goal_in_facts(goal, facts) => {
@@ -958,8 +960,8 @@ impl BreadthFirstSearch {
             for rule_name in goal.candidate_rules.clone() {
                 path.push(rule_name.clone());
 
-                // Get the rule from KB
-                if let Some(rule) = kb.get_rule(&rule_name) {
+                // Get the rule from KB (a disabled rule never fires, see DepthFirstSearch)
+                if let Some(rule) = kb.get_rule(&rule_name).filter(|r| r.enabled) {
                     // ✅ FIX: Try to execute rule (checks conditions AND executes actions)
                     match self.executor.try_execute_rule(&rule, facts) {
                         Ok(true) => {
